@@ -237,7 +237,8 @@ type c17Run struct {
 	lcalls  int64
 	tlMode  string
 	nsrc    int
-	dead    bool // a restore or its listeners hang: the database must not be touched any more
+	srcOf   map[string]string // snapshot bytes (length:hash) -> the file they were handed in as (flavour f)
+	dead    bool              // a restore or its listeners hang: the database must not be touched any more
 	// snapshot paths (c17_paths.go)
 	dbPath string   // the path the database was opened with (absolute or relative to the history's directory)
 	ptpls  []string // templates used so far
